@@ -322,7 +322,7 @@ func (a *attacker) randomDyn() []byte {
 
 var c12moves = []string{"dup-registerEvent", "conflicting-unregister", "foreign-ids", "wrong-object-ids", "garbage-property", "mutated-directory-call",
 	"unknown-targets", "all-message-types", "big-payload", "flood-drain-late", "flood-abrupt-close", "cut-mid-message", "reauthenticate-racing-calls",
-	"documented-removal", "mutated-arguments", "subscribe-then-vanish", "hostile-signatures", "garbage-bytes", "stats-and-trace", "terminate-under-flood", "post-flood-subscriptions", "answers-from-a-client", "pipelined-object-references", "truncated-arguments"}
+	"documented-removal", "mutated-arguments", "subscribe-then-vanish", "hostile-signatures", "garbage-bytes", "stats-and-trace", "terminate-under-flood", "post-flood-subscriptions", "answers-from-a-client", "pipelined-object-references", "truncated-arguments", "own-directory-entries"}
 
 func (a *attacker) move(name string) {
 	r := a.rng
@@ -480,6 +480,50 @@ func (a *attacker) move(name string) {
 		}
 		a.logf("%d authenticate frames interleaved with calls", n)
 		a.drain(50 * time.Millisecond)
+	case "own-directory-entries":
+		// well-formed life cycles of the client's OWN directory entries, the steps in any order: register,
+		// then ready / unregister / update / look up / register the name again / unregister twice ...
+		if !a.connect() {
+			return
+		}
+		name := fmt.Sprintf("own-%d-%d", a.hid, r.Intn(1000))
+		mk := func(id uint32) []byte {
+			return rc.Encode(serviceInfoT, rc.Tup{name, id, "machine", uint32(42), []interface{}{"tcp://198.51.100.1:1"}, "sess", "uid"})
+		}
+		f, err := a.conn.call(1, 1, a.ch.dir["registerService"], mk(0), nil)
+		if err != nil {
+			a.drop()
+			return
+		}
+		if f.H.Type != qnet.Reply || len(f.P) < 4 {
+			a.logf("registerService(%s) refused: type %d %q", name, f.H.Type, string(f.P))
+			return
+		}
+		id := binary.LittleEndian.Uint32(f.P)
+		a.logf("registerService(%s) -> %d", name, id)
+		for k := 1 + r.Intn(5); k > 0; k-- {
+			switch r.Intn(7) {
+			case 0, 1:
+				a.send(qnet.Call, 1, 1, a.ch.dir["serviceReady"], u32(id))
+				a.logf("serviceReady(%d)", id)
+			case 2, 3:
+				a.send(qnet.Call, 1, 1, a.ch.dir["unregisterService"], u32(id))
+				a.logf("unregisterService(%d)", id)
+			case 4:
+				a.send(qnet.Call, 1, 1, a.ch.dir["updateServiceInfo"], mk(id))
+				a.logf("updateServiceInfo(%d)", id)
+			case 5:
+				a.send(qnet.Call, 1, 1, a.ch.dir["service"], rc.Encode(rc.T(rc.String), name))
+				a.logf("service(%s)", name)
+			default:
+				a.send(qnet.Call, 1, 1, a.ch.dir["registerService"], mk(0))
+				a.logf("registerService(%s) again", name)
+			}
+			a.drain(10 * time.Millisecond)
+		}
+		// it cleans up after itself (or tries to)
+		a.send(qnet.Call, 1, 1, a.ch.dir["unregisterService"], u32(id))
+		a.drain(20 * time.Millisecond)
 	case "documented-removal":
 		if r.Intn(2) == 0 {
 			s, o := a.target()
@@ -763,7 +807,7 @@ func (a *attacker) move(name string) {
 	}
 }
 
-var serviceInfoT, _ = rc.ParseSig("(sIsI[s]s)<ServiceInfo,name,serviceId,machineId,processId,endpoints,sessionId>")
+var serviceInfoT, _ = rc.ParseSig("(sIsI[s]ss)<ServiceInfo,name,serviceId,machineId,processId,endpoints,sessionId,objectUid>")
 
 var probeParams = map[string]*rc.Type{}
 
@@ -975,7 +1019,7 @@ func (r *rawConn) callNoDeadline(service, obj, action uint32, payload []byte, _ 
 }
 
 func c12(c *wk.Ctx) {
-	c.Note("rule", "the server (directory + 2 Probe services x 3 objects + a Desk service taking object references, freshly generated stubs) runs in a child process of the worker; each case is a PRNG sequence of 2-7 moves by one authenticated hostile client from a grammar of 23 move kinds (incl. the generic statistics / tracing actions, a documented removal in the middle of a burst, a burst of one-way subscriptions answer-type frames carrying dynamic values of every kind, and pipelined calls whose arguments are references to client-hosted objects) (duplicate / conflicting / foreign registerEvent and unregisterEvent, wrong object ids, random dynamic values at property/setProperty, directory calls with mutated ServiceInfo, unknown actions/objects/services, all eight message types, payloads up to the limit, floods of 2-10k calls drained late or cut by an abrupt close, disconnects mid-header/mid-payload, authenticate frames racing calls, hostile length fields and signatures, the documented removals terminate()/unregisterService(), random bytes). After each sequence a fresh connection authenticates, lists the directory and calls work() on every object the sequence did not legitimately remove. Oracle: the child is alive (exit or fatal error = violation with its stderr), every probe returns f(token); a probe that does not return is decided by the child's own quiescence detector (blocked forever = violation), a CPU / memory budget read from /proc, or a watchdog (inconclusive). Race reports of the child are violations. Distinct non-trivial = distinct move sequences after which at least 4 objects were probed.")
+	c.Note("rule", "the server (directory + 2 Probe services x 3 objects + a Desk service taking object references, freshly generated stubs) runs in a child process of the worker; each case is a PRNG sequence of 2-7 moves by one authenticated hostile client from a grammar of 25 move kinds (incl. well-formed life cycles of the client's own directory entries in any order) (incl. the generic statistics / tracing actions, a documented removal in the middle of a burst, a burst of one-way subscriptions answer-type frames carrying dynamic values of every kind, and pipelined calls whose arguments are references to client-hosted objects) (duplicate / conflicting / foreign registerEvent and unregisterEvent, wrong object ids, random dynamic values at property/setProperty, directory calls with mutated ServiceInfo, unknown actions/objects/services, all eight message types, payloads up to the limit, floods of 2-10k calls drained late or cut by an abrupt close, disconnects mid-header/mid-payload, authenticate frames racing calls, hostile length fields and signatures, the documented removals terminate()/unregisterService(), random bytes). After each sequence a fresh connection authenticates, lists the directory and calls work() on every object the sequence did not legitimately remove. Oracle: the child is alive (exit or fatal error = violation with its stderr), every probe returns f(token); a probe that does not return is decided by the child's own quiescence detector (blocked forever = violation), a CPU / memory budget read from /proc, or a watchdog (inconclusive). Race reports of the child are violations. Distinct non-trivial = distinct move sequences after which at least 4 objects were probed.")
 	var ch *child
 	defer func() {
 		if ch != nil {
